@@ -45,7 +45,7 @@ func newAdminWorld(users []string) *vAdminWorld {
 	vMust(err)
 	w.st.gitDB = db
 	w.st.Config.Base.AdminGroups = []string{vAdminGroup}
-	w.st.isAdminCache = admincache.New(5 * time.Minute) // as loadVerifyConfigFile builds it
+	w.st.isAdminCache = vConfiguredState(nil).isAdminCache // the cache object the configuration loader builds
 	return g
 }
 
